@@ -40,3 +40,51 @@ def resourceObject (r : ResView) (prepath : GoString) (fields : List GoString)
     (if rmeta.isEmpty then [] else [(K.kmeta, Json.obj rmeta)])))
 
 end Jsonapi.Spec
+
+namespace Jsonapi.Spec
+open Jsonapi
+
+/-- The field selection of a type: its entry in the URL's `fields` map; a type without an
+entry exposes no attributes or relationships. -/
+def selection (fields : GoMap (List GoString)) (typeName : GoString) : List GoString :=
+  (fields.get? typeName).getD []
+
+/-- The primary data member of a marshaled document (`none`: no data member). -/
+def dataMember (doc : Document) (fields : GoMap (List GoString)) : Option Json :=
+  match doc.data with
+  | .none => if doc.errors.isEmpty then some .null else none
+  | .res r => some (resourceObject r doc.prePath (selection fields r.typeName) doc.relData)
+  | .col _ ms => some (.arr (ms.map (fun r => resourceObject r doc.prePath (selection fields r.typeName) doc.relData)))
+  | .ident id typ => some (identifierJson id typ)
+  | .idents _ l => some (.arr (l.map (fun p => identifierJson p.1 p.2)))
+  | .other => none
+
+/-- The whole document tree the properties describe: errors or data (never both),
+included only alongside data (sorted by ID), meta when non-empty, links with self,
+and the jsonapi member. `none` when marshaling fails (data of an unknown Go type). -/
+def documentTree (doc : Document) (fields : GoMap (List GoString)) (selfHref : GoString) : Option Json :=
+  if doc.data matches .other then none
+  else
+    let body : List (GoString × Json) :=
+      if !doc.errors.isEmpty then [(K.errors, .arr (doc.errors.map ErrorObj.toJson))]
+      else match dataMember doc fields with
+        | some dj =>
+          [(K.data, dj)] ++
+          (if doc.included.isEmpty then []
+           else [(K.included, .arr ((sortById doc.included).map (fun r =>
+              resourceObject r doc.prePath (selection fields r.typeName) doc.relData)))])
+        | none => []
+    let links := (doc.links.filter (fun p => p.1 ≠ K.self)).map (fun p => (p.1, p.2.toJson)) ++
+                 [(K.self, Json.str selfHref)]
+    some (.obj (sortMembers (body ++
+      (if doc.dmeta.isEmpty then [] else [(K.kmeta, Json.obj doc.dmeta)]) ++
+      [(K.links, Json.obj (sortMembers links)), (K.jsonapi, Json.obj [(K.version, .str K.v10)])])))
+
+/-- (type, id) key of a resource, as `Include` compares them. -/
+def primaryKeys (doc : Document) : List GoString :=
+  match doc.data with
+  | .res r => [resKey r]
+  | .col _ ms => ms.map resKey
+  | _ => []
+
+end Jsonapi.Spec
